@@ -143,6 +143,22 @@ Proof.
 Qed.
 Print Assumptions T03_early_data_switchover_complete.
 
+(* The same on the dialled side of an Upgrade: net/http's transport parses the 101 head through its
+   reader on the dialled connection; what it holds behind the head starts the 101 body.  For every
+   stream of the target, every hand-over schedule, every reader size and every interleaving of the
+   tunnel, the client receives a prefix of exactly the bytes behind the target's 101 head. *)
+Theorem T03_banner_switchover_upgrade : forall g size stream sched head r' e later tr s, (0 <= g)%Z ->
+  client_head_read size stream sched = Some (head, r') ->
+  steps (tables_shape g) (init e [] (r_buf r') None None) tr s ->
+  (exists sent, writes TC tr = r_rest r' ++ sent /\ prefix_of sent later) ->
+  stream ++ later = head ++ tunnel_bytes r' later /\
+  prefix_of (d_rcv (get TC s)) (tunnel_bytes r' later).
+Proof.
+  exact (fun g size stream sched head r' e later tr s Hg Hr Hs Hw =>
+    upgrade_switchover_prefix _ (shape_ok_tables g Hg) size stream sched head r' Hr e later tr s Hs Hw).
+Qed.
+Print Assumptions T03_banner_switchover_upgrade.
+
 Example T03_early_data_example : early_example_ok = true.
 Proof. exact ob_early_example. Qed.
 
